@@ -538,7 +538,13 @@ JsonWalkKeys(st, o, keys, i, stack) ==
 CallIn(st, f, thisV, args) ==
     LET fn == st.H[f.id].fn
     IN  CASE fn.k = "user" -> CallUser(st, f.id, thisV, args)
-          [] fn.k = "host" -> Ok([st EXCEPT !.log = Append(@, ProjSeq(st, args))], SeqGet(args, 1))
+          [] fn.k = "host" ->
+                \* a host function that panics (armed for its hpanic-th call of this run): the call is
+                \* logged, then the panic value surfaces as a thrown value the script can catch; if
+                \* nobody catches it the run ends abnormally (property C18)
+                IF st.hpanic > 0 /\ Len(st.log) + 1 = st.hpanic
+                THEN Thr([st EXCEPT !.log = Append(@, ProjSeq(st, args))], StrV(<<98, 111, 111, 109>>))      \* "boom"
+                ELSE Ok([st EXCEPT !.log = Append(@, ProjSeq(st, args))], SeqGet(args, 1))
           [] fn.k = "hostcb" -> Call(st, SeqGet(args, 1), Undef, <<>>)      \* C19 host function CB(f): calls f() and returns its result
           [] fn.k = "hostmsg" ->       \* C19 probe M(e): "e.message is a non-empty string".  ES5 does not fix the
                                        \* message text of the errors the interpreter raises, C19 demands it is not empty.
@@ -743,7 +749,11 @@ EvalRef(node, cx, st) ==
                          ELSE IF b.v.t \in {"undef", "null"} THEN RefFail(ThrowErrAt(p.st, cx, S_TypeError, Pos(node)))   \* CheckObjectCoercible
                          ELSE LET nm == ToStr(p.st, p.v)
                               IN  IF nm.thr # "" THEN RefFail(nm)
-                                  ELSE RefRes(nm.st, [k |-> "prop", base |-> b.v, n |-> nm.v.s, envobj |-> FALSE, withThis |-> FALSE])
+                                  \* evaluating a member expression moves the running frame to it: a getter or setter
+                                  \* reached through the reference is called from here (8.12.3, 8.12.5).
+                                  \* D19_getter_site_not_recorded: otto records no position for it
+                                  ELSE RefRes(IF D("D19_getter_site_not_recorded") THEN nm.st ELSE Site(nm.st, cx, Pos(node)),
+                                              [k |-> "prop", base |-> b.v, n |-> nm.v.s, envobj |-> FALSE, withThis |-> FALSE])
       [] OTHER -> RefFail(Und(st))
 
 (* this value for a call through a reference (11.2.3 step 6) *)
@@ -787,9 +797,7 @@ EvalBody(node, cx, st) ==
       [] node.k \in {"id", "dot", "idx"} ->
             LET r == EvalRef(node, cx, st)
             IN  IF r.thr # "" THEN [st |-> r.st, v |-> r.v, thr |-> r.thr]
-                \* a member expression is where an accessor's getter is called from (8.12.3).
-                \* D19_getter_site_not_recorded: otto records no position for that call
-                ELSE GetValueAt(IF node.k = "id" \/ D("D19_getter_site_not_recorded") THEN r.st ELSE Site(r.st, cx, Pos(node)), cx, r.ref, node)
+                ELSE GetValueAt(r.st, cx, r.ref, node)
       [] node.k = "fn" ->                                                    \* 13
             IF node.name = <<>> THEN (LET f == MakeFunction(st, node.params, node.body, cx.lex, <<>>, cx.file) IN Ok(f.st, f.v))
             ELSE LET e == NewDeclEnv(st, cx.lex)
@@ -860,9 +868,8 @@ EvalBody(node, cx, st) ==
                      IN  IF g.thr # "" THEN g
                          ELSE LET v == Eval(node.r, cx, g.st)
                               IN  IF v.thr # "" THEN v
-                                  ELSE LET b == BinaryOp(v.st, node.op, g.v, v.v)
-                                       IN  IF b.thr # "" THEN b
-                                           ELSE PutValue(IF D("D19_assignment_site_not_recorded") THEN b.st ELSE Site(b.st, cx, Pos(node)), r.ref, b.v)
+                                  ELSE LET b == BinaryOp(IF D("D19_assignment_site_not_recorded") THEN v.st ELSE Site(v.st, cx, Pos(node)), node.op, g.v, v.v)
+                                       IN  IF b.thr # "" THEN b ELSE PutValue(b.st, r.ref, b.v)
       [] node.k = "call" ->                                                   \* 11.2.3
             LET isRef == node.f.k \in {"id", "dot", "idx"}
                 fr == IF isRef THEN EvalRef(node.f, cx, st) ELSE [st |-> st, thr |-> ""]
@@ -904,7 +911,9 @@ EvalBody(node, cx, st) ==
                      (LET t == ThrowErr(stE, IF Bad(node) = "lhs" /\ ~D("D19_eval_invalid_lhs_syntaxerror") THEN S_ReferenceError ELSE S_SyntaxError)
                       IN  [t EXCEPT !.st.fr = stS.fr])
                 ELSE LET c == RunBody([(IF node.direct THEN stE ELSE PushFrame(stE, UserFrame(<<>>, FileOf(node)))) EXCEPT !.depth = @ + extra], node.prog, ecx, TRUE)
-                         stR == [c.st EXCEPT !.depth = st.depth, !.fr = IF node.direct THEN @ ELSE stS.fr]
+                         \* afterwards the caller stands at the eval call again (under the deviation its frame stays
+                         \* where the eval code left it, file included)
+                         stR == [c.st EXCEPT !.depth = st.depth, !.fr = IF node.direct /\ D("D19_eval_leaves_frame_file") THEN @ ELSE stS.fr]
                      IN  CASE c.ty = "normal" -> Ok(stR, IF c.v = Empty THEN Undef ELSE c.v)
                            [] c.ty = "throw" -> Thr(stR, c.v)
                            [] c.ty = "interrupt" -> Intr(stR)
@@ -1183,7 +1192,7 @@ Heap0 ==
 State0(fuel) ==
     [H |-> Heap0, E |-> <<[k |-> "obj", o |-> GlobalObj, withThis |-> FALSE, outer |-> 0]>>, log |-> <<>>, fuel |-> fuel,
      poll |-> 0, abortAt |-> 0, aborted |-> FALSE, depth |-> 0, limit |-> 0,
-     fr |-> <<UserFrame(<<>>, 1)>>, tlimit |-> 0, numproto |-> 0]
+     fr |-> <<UserFrame(<<>>, 1)>>, tlimit |-> 0, numproto |-> 0, hpanic |-> 0]
 
 GlobalCx == [lex |-> GlobalEnv, var |-> GlobalEnv, this |-> ObjV(GlobalObj), file |-> 1]
 
@@ -1206,6 +1215,11 @@ Outcome(c) ==
       [] OTHER -> [und |-> TRUE]      \* break/continue/return escaping a program: not generated
 
 RunProgram(body, fuel, isEval) == Outcome(RunBody(State0(fuel), body, GlobalCx, isEval))
+
+(* one API-level run on an existing runtime state (OttoAPI.tla): [st, out] *)
+RunOn(st, body, fuel, isEval, hpanic) ==
+    LET c == RunBody([st EXCEPT !.log = <<>>, !.fuel = fuel, !.hpanic = hpanic, !.abortAt = 0], body, GlobalCx, isEval)
+    IN  [st |-> [c.st EXCEPT !.hpanic = 0], out |-> Outcome(c)]
 
 (* several programs one after the other on the same runtime (C17, C20): the outcomes *)
 RECURSIVE RunSeqFrom(_, _, _, _)
